@@ -87,6 +87,18 @@ CHECKS = {
             "Arbitrary work-list pop orders are deliberately not explored (production never takes them; see DESIGN.md); graphs have "
             "<= 6 declarations; facts that are unstable but never consulted are only counted.",
             "6/C07"),
+    "C11": ("model_checking",
+            "controlled-scheduler exploration of the real implementation: every interleaving of gate-to-gate segments (hook H3) of "
+            "2-3 generating threads, one fresh process per schedule; plus exhaustive enumeration of generation histories in one "
+            "process; CLI process matrix and free-running threads as labelled sampling",
+            "All sequences of <=2 (quick) / <=3 (thorough) generations over an 8-job alphabet (first libclang use, templates, "
+            "use-core, two bit-field headers, static wrappers + depfile + macro fallback, overlapping ABI overrides, enum styles) are "
+            "run in fresh processes, and all interleavings of phase-gated generations on 2 and 3 real threads are executed under a "
+            "harness scheduler; bindings, depfile, wrapper source and callback sequence of every generation must equal the job's "
+            "fresh-process output. Repository headers are generated twice from a cloned builder.",
+            "Threads are serialised at gate granularity (races inside a segment are not explored); RandomState seeds and ASLR are "
+            "chosen by the OS and only sampled by the process matrix; the working directory is treated as an input.",
+            "6/C11"),
 }
 
 NOT_YET = "check not built yet in this round (see DESIGN.md section 10a for the plan)"
